@@ -193,6 +193,11 @@ func genPipe(rng *hutil.Rng, name int, prof string) PipeCfg {
 
 func genDefSets(rng *hutil.Rng, prof string) []DefSet {
 	np := 1 + rng.Pick([]int{5, 3, 1})
+	if prof == "shutdown" {
+		// more histories with several pipelines: a reload that removes a pipeline while one of its jobs runs,
+		// followed by a (forced) shutdown, needs at least two (seeded change C11-I)
+		np = 1 + rng.Pick([]int{2, 4, 2})
+	}
 	base := DefSet{}
 	for i := 0; i < np; i++ {
 		base.Pipes = append(base.Pipes, genPipe(rng, i, prof))
@@ -201,7 +206,14 @@ func genDefSets(rng *hutil.Rng, prof string) []DefSet {
 	// variants for reloads
 	for v := 0; v < 3; v++ {
 		alt := DefSet{}
-		for _, p := range base.Pipes {
+		victim := -1
+		if prof == "shutdown" && v == 0 && len(base.Pipes) > 1 {
+			victim = rng.Intn(len(base.Pipes)) // the first variant always lacks one pipeline
+		}
+		for pi, p := range base.Pipes {
+			if pi == victim {
+				continue
+			}
 			q := p
 			q.Tasks = append([]TaskCfg(nil), p.Tasks...)
 			switch rng.Intn(7) {
@@ -658,7 +670,7 @@ func (x *hist) weights() map[string]int {
 	case "restart":
 		w["save"] = 4
 	case "shutdown":
-		w["shutdown"], w["force"], w["save"] = 2, 3, 2
+		w["shutdown"], w["force"], w["save"], w["reload"] = 2, 3, 2, 3
 	}
 	return w
 }
